@@ -88,6 +88,7 @@ fn case_class(c: &Value) -> String {
         "seq" => "api-sequence".into(),
         "hlp" => "helpers".into(),
         "res" => "fresh-stack".into(),
+        "alw" => "allowed-memory".into(),
         x => x.into(),
     }
 }
@@ -398,6 +399,38 @@ pub fn run(s: &mut Sink) {
             }
             compare(s, &mut twin, cases);
             s.done("fresh-stack contents after an earlier execution on the same thread");
+            // registered allowed memory: every layout of the C02 alphabet (adjacent, nested, overlapping,
+            // 1 and 4 bytes apart, each also in reversed registration order) x a load of each width at
+            // every offset within 3 bytes of an end of a range
+            let mut cases = vec![];
+            let layouts: Vec<Vec<(u64, u64)>> = vec![vec![(64, 16)], vec![(64, 16), (80, 16)], vec![(64, 8), (76, 8)], vec![(64, 8), (73, 8)], vec![(64, 32), (64, 4), (72, 4)], vec![(64, 16), (72, 16)], vec![(64, 8), (64, 16), (64, 24), (64, 32)], vec![(64, 32), (70, 2), (90, 6)], vec![(100, 3), (64, 40)]];
+            for l in &layouts {
+                let mut orders = vec![l.clone()];
+                let mut r = l.clone();
+                r.reverse();
+                if r != *l {
+                    orders.push(r);
+                }
+                let mut ats: Vec<u64> = vec![];
+                for (o, n) in l {
+                    for d in -3i64..=3 {
+                        ats.push((*o as i64 + d) as u64);
+                        ats.push((*o as i64 + *n as i64 + d) as u64);
+                    }
+                }
+                ats.sort();
+                ats.dedup();
+                for ord in &orders {
+                    for at in &ats {
+                        for w in [1u64, 2, 4, 8] {
+                            cases.push(json!({"k":"alw","ranges":ord.iter().map(|(o, n)| json!([o, n])).collect::<Vec<_>>(),"at":at,"w":w}));
+                        }
+                    }
+                }
+            }
+            s.count("allowed_memory_cases", cases.len() as u64);
+            compare(s, &mut twin, cases);
+            s.done("registered allowed memory: 9 layouts x registration orders x loads around every range end");
         }
     }
     // API sequences on one VM object: every VM kind, every sequence of <= 4 calls after new()
